@@ -33,7 +33,7 @@ Sec == [t |-> "sec", r |-> "", v |-> 0]
 Unk == [t |-> "unk", r |-> "", v |-> 0]
 Undef == [t |-> "undef", r |-> "", v |-> 0]
 
-GPRS == {"AX", "BX", "CX", "DX", "SI", "DI", "BP", "SP", "R8", "R9", "R10", "R11", "R12", "R13", "R14", "R15"}
+GPRS == {"AX", "BX", "CX", "DX", "SI", "DI", "BP", "SP"} \cup {"R" \o ToString(i) : i \in 0..30}      \* amd64 and arm64 names
 VREGS == {"V" \o ToString(i) : i \in 0..31}
 KREGS == {"K" \o ToString(i) : i \in 0..7}
 Ctx == A!Contexts[ci]
@@ -184,10 +184,10 @@ Step ==
           [] ins.cl = "vec" ->
                LET ra == Read(s, ins.a, ins.w, ln)
                    rc == IF ins.c.k = "n" THEN <<Unk, ra[2]>> ELSE Read(ra[2], ins.c, ins.w, ln)
-                   zero == ins.a.k = "v" /\ ins.c.k = "v" /\ ins.a.r = ins.c.r /\ ins.fn \in {"VPXORD", "VPXORQ"}
+                   zero == ins.a.k = "v" /\ ins.c.k = "v" /\ ins.a.r = ins.c.r /\ ins.fn \in {"VPXORD", "VPXORQ", "VEOR"}
                    t == IF zero THEN "pub" ELSE JoinT(Taint(ra[1]), Taint(rc[1]))
                    val == IF t = "sec" THEN Sec ELSE IF t = "undef" THEN Undef ELSE Unk
-                   s2 == IF t = "undef" THEN Err(rc[2], ln, "C11 use of an uninitialised register") ELSE rc[2]
+                   s2 == IF t = "undef" THEN Err(rc[2], ln, "NOTE read of a register the routine has not written") ELSE rc[2]
                IN Commit(Write(s2, ins.b, val, ins.w, ln), pc + 1) /\ UNCHANGED nsb
           [] ins.cl = "vecmask" ->
                LET m == s.kr[ins.c.r]
